@@ -41,6 +41,14 @@
 (* the ACTOR and the TARGET channel; the specification only ever uses      *)
 (* target = actor (Next), the trace specification takes the target from    *)
 (* the recorded database effect and the invariants judge it.               *)
+(*                                                                          *)
+(* Invariants: ClosedOnlyAfterOwnContracts, WipedOnlyWhenClosed,           *)
+(* ReportsBelong, SweepsSignable, UpstreamOnce, action property NoLossProp;*)
+(* "same terminal outcome as the uninterrupted run" = deadlock check (only *)
+(* Finished may stay for ever).  Measured (ChainArbMC, 4 workers): <= 1    *)
+(* stop 1.13 M distinct states / 40 s, <= 3 stops 5.6 M / 2 min 16 s.      *)
+(* Controls (ChainArbCross.cfg, ChainArbRep.cfg): a cross-channel          *)
+(* notification / report must break the respective invariant.              *)
 (***************************************************************************)
 EXTENDS Naturals, Sequences, FiniteSets, TLC
 
